@@ -54,6 +54,33 @@ def client_flush(chk, rule: str):
     for fl in swaps:
         g = [(ff.norm(e, subst=False), p) for e, p in ff.facts_at(fl.ast)]
         chk.check((ff.canon("self.responses.empty()"), False) in g or not g, rule, f"{site} | flush when not empty", rr.loc(fl.ast), f"flush under {g}")
+    receiver_uses_current_queue(chk, rule, CL, "SdoClient", "on_response", bool(swaps))
+
+
+def receiver_uses_current_queue(chk, rule: str, rel: str, cname: str, recv: str, rebinding_flush: bool):
+    """The frame handler puts a copy of every frame into the queue the reader waits on.  Where the flush works by
+    rebinding `self.responses`, the handler has to look the queue up at call time: a bound `put` cached elsewhere keeps
+    feeding the discarded queue and the client is deaf after the first flush."""
+    repo, folder = ctx(chk)
+    f = repo.func(rel, f"{cname}.{recv}", f"{chk.prop}.{rule}")
+    chk.saw(f)
+    data_p = f.params[2] if len(f.params) > 2 else "data"
+    puts = [c for c in ast.walk(f.node) if isinstance(c, ast.Call) and src(c.func) in ("self.responses.put", "self.responses.put_nowait")]
+    cls = repo.cls(rel, cname, f"{chk.prop}.{rule}")
+    cached = {}
+    for m in cls.methods.values():
+        for n in own_nodes(m.node):
+            if isinstance(n, ast.Assign) and isinstance(n.value, ast.Attribute) and src(n.value.value) == "self.responses" and isinstance(n.targets[0], ast.Attribute) and dotted(n.targets[0].value) == "self":
+                cached[n.targets[0].attr] = (m, n)
+    via_cache = [c for c in ast.walk(f.node) if isinstance(c, ast.Call) and isinstance(c.func, ast.Attribute) and dotted(c.func.value) == "self" and c.func.attr in cached]
+    if via_cache and rebinding_flush:
+        m, n = cached[via_cache[0].func.attr]
+        chk.bad(rule, f"{rel}:{cname}.{recv} | frames go to the queue in use", f.loc(via_cache[0]),
+                f"`{src(via_cache[0])[:50]}` calls the bound method cached by `{src(n)}` ({m.qualname}); the flush replaces self.responses by a new queue, so after the first "
+                f"flush every response lands in the discarded queue and all later transfers time out")
+        return
+    chk.check(len(puts) == 1 and [src(a) for a in puts[0].args] == [f"bytes({data_p})"], rule, f"{rel}:{cname}.{recv} | frames go to the queue in use", f.loc(),
+              f"{[src(c) for c in puts] or [src(c) for c in via_cache]}; expected self.responses.put(bytes({data_p}))")
 
 
 def server_reset(chk, rule: str):
@@ -269,3 +296,124 @@ def isolation(chk, rule: str, rels=None):
     chk.ok(rule, f"{'package' if rels is None else ', '.join(sorted(rels))} | no class-level mutable state mutated in place", "canopen/", f"scanned {n_cls} classes")
     t = ast.parse("class S:\n    _buffer = bytearray()\n    def f(self, d):\n        b = self._buffer\n        b[:] = d\n")
     chk.fixture(rule, "class-level bytearray mutated through an alias", _is_mutable_value(t.body[0].body[0].value) and bool(_mutations_of(t.body[0].body[1], "self._buffer")))
+
+
+def read_mapping_loop(chk, rule: str):
+    """PdoMap.read(): the old mapping is cleared first, sub-indices 1..count are decoded, and every non-empty entry
+    (index and size non-zero -- any size 1..64) becomes a variable through add_variable(index, subindex, size)."""
+    repo, folder = ctx(chk)
+    from .common import enclosing
+    read = repo.func(PB, "PdoMap.read", f"{chk.prop}.{rule}")
+    fr = ff_for(chk, read, f"{chk.prop}.{rule}")
+    fsc = Scope(read.mod, read.cls)
+    # the mapping loop of read(): cleared first, sub-indices 1..count, one add_variable per non-empty entry
+    clears = [n for n in fr.cfg.nodes if n.kind == "stmt" and isinstance(n.ast, ast.Expr) and isinstance(n.ast.value, ast.Call)
+              and dotted(n.ast.value.func) == "self.clear"]
+    adds = find_calls(read.node, "self.add_variable")
+    chk.floor(rule, len(adds), 1, "add_variable in read")
+    for c in adds:
+        st = fr.stmt_of(c)
+        cn = fr.cfg.node_of(st)
+        chk.check(any(fr.cfg.dominates(x, cn) for x in clears), rule, f"{PB}:PdoMap.read | old mapping cleared first", read.loc(c),
+                  "no self.clear() dominates add_variable(): entries of a previous read()/configuration stay in the map")
+        chk.check([src(a) for a in c.args] == ["index", "subindex", "size"] and not c.keywords, rule, f"{PB}:PdoMap.read | add_variable arguments", read.loc(c),
+                  f"{src(c)}; expected add_variable(index, subindex, size)")
+        g = [(fr.norm(e, subst=False), p) for e, p in fr.facts_at(st)]
+        guards = [(t, p) for t, p in g if "curtis_hack" not in t]
+        pos = {t for t, p in guards if p}
+        from .common import conj_of_facts, substitute_src
+        gexpr = conj_of_facts([(e, p) for e, p in fr.facts_at(st) if "curtis_hack" not in src(e)])
+        verdict, wrong = True, []
+        for iv in (0, 1, 0x1000, 0x6041):
+            for sv in (0, 1, 7, 8, 16, 32, 63, 64):
+                r = folder.try_fold(substitute_src(gexpr, {"index": iv, "size": sv}), fsc, "?")
+                if r == "?":
+                    verdict = None
+                    break
+                if bool(r) != (iv != 0 and sv != 0):
+                    wrong.append((hex(iv), sv, bool(r)))
+            if verdict is None:
+                break
+        if verdict is None:
+            chk.check(all(p for _, p in guards) and pos <= {"index", "size", "index and size", "size and index"} and pos, rule,
+                      f"{PB}:PdoMap.read | entry kept when non-empty", read.loc(c), f"add_variable() runs under {guards}; expected `index and size`")
+        else:
+            chk.check(not wrong, rule, f"{PB}:PdoMap.read | entry kept when non-empty", read.loc(c),
+                      f"add_variable() runs under {guards}: for (index, bit length) {[(a, b) for a, b, _ in wrong][:4]} the entry is {'kept' if wrong and wrong[0][2] else 'dropped'}; "
+                      f"every entry with a non-zero index and 1..64 bits is a mapped object",
+                      "guard evaluated for 4 indexes x 8 bit lengths")
+        loops = enclosing(read.node, st, (ast.For,))
+        chk.check(len(loops) == 1, rule, f"{PB}:PdoMap.read | mapping loop", read.loc(c), "add_variable() is not inside exactly one loop")
+        for lp in loops[:1]:
+            it = lp.iter
+            okr = (isinstance(it, ast.Call) and dotted(it.func) == "range" and len(it.args) == 2 and folder.try_fold(it.args[0], fsc, None) == 1)
+            cnt_name = None
+            if okr:
+                hi = it.args[1]
+                hs = fr.norm(hi, subst=False)
+                m = [nm for nm in [x.id for x in ast.walk(hi) if isinstance(x, ast.Name)]]
+                okr = len(m) == 1 and hs in (f"{m[0]} + 1", f"1 + {m[0]}")
+                cnt_name = m[0] if m else None
+            chk.check(okr, rule, f"{PB}:PdoMap.read | sub-indices 1..count", read.loc(lp), f"loop over `{src(it)}`; expected range(1, count + 1)")
+            if cnt_name:
+                d = fr.one_def(cnt_name)
+                chk.check(d is not None and src(d) == "_raw_from(self.map_array[0])", rule, f"{PB}:PdoMap.read | count source", read.loc(lp),
+                          f"{cnt_name} = {src(d) if d is not None else '?'}; expected _raw_from(self.map_array[0])")
+            lv = src(lp.target)
+            vals = [n for n in own_nodes(lp) if isinstance(n, ast.Assign) and src(n.targets[0]) == "value"]
+            chk.check(len(vals) == 1 and src(vals[0].value) == f"_raw_from(self.map_array[{lv}])" and vals[0] is lp.body[0], rule,
+                      f"{PB}:PdoMap.read | entry source", read.loc(lp), f"value = {[src(v.value) for v in vals]}; expected _raw_from(self.map_array[{lv}]) as the first statement of the loop")
+
+
+
+def mapping_length_exact(chk, rule: str):
+    """PdoMap.add_variable takes a given bit length as it is (it is what the device's mapping word says and what save() writes back)."""
+    repo, folder = ctx(chk)
+    av = repo.func(PB, "PdoMap.add_variable", f"{chk.prop}.{rule}")
+    fa = ff_for(chk, av, f"{chk.prop}.{rule}")
+    ln = [n for n in own_nodes(av.node) if isinstance(n, (ast.Assign, ast.AugAssign)) and src(n.targets[0] if isinstance(n, ast.Assign) else n.target) == "var.length"]
+    chk.floor(rule, len(ln), 1, "custom length store in add_variable")
+    for n in ln:
+        g = [(fa.norm(e, subst=False), p) for e, p in fa.facts_at(n) if "length" in src(e)]
+        ok = isinstance(n, ast.Assign) and src(n.value) == "length" and g in ([("length is not None", True)], [("length is None", False)])
+        chk.check(ok, rule, f"{PB}:PdoMap.add_variable | a given bit length is used as given", av.loc(n),
+                  f"`{src(n)}` under {g}: the field would not have the length of the mapping entry (read/save no longer round-trip, neighbouring fields shift)")
+    for c in find_calls(av.node, "self._get_variable"):
+        chk.check([src(a) for a in c.args] == ["index", "subindex"], rule, f"{PB}:PdoMap.add_variable | object looked up by the given index and sub-index", av.loc(c), src(c))
+
+
+def fill_map_complete(chk, rule: str):
+    """PdoMap._fill_map(needed) leaves at least `needed` entries in the map, all of them all-zero dummies."""
+    repo, folder = ctx(chk)
+    fm = repo.func(PB, "PdoMap._fill_map", f"{chk.prop}.{rule}")
+    chk.saw(fm)
+    sc = Scope(fm.mod, fm.cls)
+    from .common import substitute_src
+    loops = [n for n in own_nodes(fm.node) if isinstance(n, (ast.While, ast.For))]
+    appends = [c for c in find_calls(fm.node, "self.map.append")]
+    if len(loops) != 1 or len(appends) != 1 or not any(c is x for c in appends for x in ast.walk(loops[0])):
+        chk.unk(rule, f"{PB}:PdoMap._fill_map | shape", fm.loc(), "expected one loop appending one dummy per iteration")
+        return
+    lp = loops[0]
+    p = fm.params[1]
+    if isinstance(lp, ast.While):
+        t = ast.unparse(lp.test)
+        ok = t in (f"len(self.map) < {p}", f"{p} > len(self.map)") and not any(isinstance(x, ast.Break) for x in ast.walk(lp))
+        chk.check(ok, rule, f"{PB}:PdoMap._fill_map | fills up to the required number of entries", fm.loc(lp), f"loop condition `{t}`")
+    else:
+        wrong = None
+        for k in range(0, 4):
+            for n in range(0, 9):
+                it = folder.try_fold(substitute_src(lp.iter, {"len(self.map)": k, p: n}), sc, None)
+                if it is None:
+                    chk.unk(rule, f"{PB}:PdoMap._fill_map | loop `{src(lp.iter)}`", fm.loc(lp), "iteration count cannot be evaluated")
+                    return
+                if len(list(it)) != max(0, n - k):
+                    wrong = wrong or (k, n, len(list(it)))
+        chk.check(wrong is None, rule, f"{PB}:PdoMap._fill_map | fills up to the required number of entries", fm.loc(lp),
+                  f"with {wrong[0]} mapped and {wrong[1]} required the loop adds {wrong[2]} dummies, not {max(0, wrong[1] - wrong[0])}: the highest slot keeps its old mapping" if wrong else "",
+                  "iteration count evaluated for 0..3 mapped x 0..8 required")
+    zero = [n for n in own_nodes(fm.node) if isinstance(n, ast.Assign) and src(n.targets[0]).endswith(".length")]
+    chk.check(len(zero) == 1 and folder.try_fold(zero[0].value, sc, None) == 0, rule, f"{PB}:PdoMap._fill_map | dummy entries have length 0", fm.loc(), f"{[src(z) for z in zero]}")
+    mk = [c for c in ast.walk(fm.node) if isinstance(c, ast.Call) and (dotted(c.func) or "").endswith("ODVariable")]
+    chk.check(len(mk) == 1 and [folder.try_fold(a, sc, None) for a in mk[0].args[1:3]] == [0, 0], rule, f"{PB}:PdoMap._fill_map | dummy object 0x0000:00", fm.loc(), f"{[src(c) for c in mk]}")
